@@ -15,11 +15,11 @@ from . import _conn as K
 CLAUSES = ('owned-uncommitted', 'state-lost', 'stale', 'dirty-idle', 'serial', 'leftover', 'closed-joined')
 DEVS = ('InvalidateDoomed', 'LeakUnstored', 'AddBeforeJoin', 'ImportNotCreating')        # the deviations whose clauses are this property's
 FOCUS = ('Finish', 'FinishThenFail', 'FailBeforeBegin', 'FailBegun', 'StoreRaises', 'StoreConflict', 'FailStored', 'FailVoted',
-         'CommitSpConflict', 'CommitSpRaises', 'SavepointRaises', 'CommitSpStoreRaises', 'BeginFails', 'AddWhileFailed')
+         'CommitSpConflict', 'CommitSpRaises', 'SavepointRaises', 'CommitSpStoreRaises', 'BeginFails', 'AddWhileFailed', 'ModifyWhileFailed')
 NEED = ['Modify', 'Link', 'Unlink', 'AddExplicit', 'Load', 'Begin', 'Store', 'Stored', 'Vote', 'Finish', 'Abort', 'Close',
         'Reopen', 'OtherCommit', 'FailBeforeBegin', 'FailBegun', 'StoreRaises', 'StoreConflict', 'FailStored', 'FailVoted',
         'FinishThenFail', 'Savepoint', 'CommitSp', 'SavepointRaises', 'CommitSpRaises', 'CommitSpConflict',
-        'CommitSpStoreRaises', 'BeginFails', 'AddWhileFailed', 'ImportInTxn', 'Rollback']
+        'CommitSpStoreRaises', 'BeginFails', 'AddWhileFailed', 'ModifyWhileFailed', 'ImportInTxn', 'Rollback']
 
 
 BUDGET = {'committed-objects': 30000, 'new-objects': 28000, 'with-savepoint': 28000, 'one-object': 26000,
@@ -43,7 +43,7 @@ def configs(q):
     # the storage refusing tpc_begin (FileStorage: description > 65535 bytes) and the NEXT commit; Connection.add while
     # the transaction is in the failed state; importFile inside a transaction that is then aborted / fails
     late = cd.consts(Obj=('a', 'b'), Edges='EdgesFlat', Pre=('a',), MaxSp=1, MaxCommit=1 if q else 2, MaxAct=3, MaxTail=1,
-                     Ops=('add', 'bf', 'awf', 'sp', 'imp') if q else ('add', 'bf', 'awf', 'sp', 'imp', 'rm', 'own'))
+                     Ops=('add', 'bf', 'awf', 'mwf', 'sp', 'imp') if q else ('add', 'bf', 'awf', 'mwf', 'sp', 'imp', 'rm', 'own'))
     # rollback to the first savepoint after a second one wrote a new object, then ownership
     rb = cd.consts(Obj=('a',), Edges='EdgesFlat', MaxSp=2, MaxCommit=1, MaxAct=5, MaxTail=1, Ops=('add', 'sp'))
     return [('new-objects', new), ('committed-objects', pre), ('one-object', one), ('with-savepoint', sp),
